@@ -33,7 +33,7 @@ from ..util import data, Rng, pick_size
 
 SWEEP_OPS = ["hash_oneshot", "hash_life", "scrypt", "bcrypt", "pkcs1_15", "oaep", "strxor", "ec_point", "ec_sign", "eddsa", "modexp",
              "monty_mult", "cpuid", "poly1305", "dh", "hash_pbkdf2", "ed_point", "x_point", "aes_short", "ocb_tag", "keccak_squeeze", "blake2_params",
-             "cfb_badseg", "mixed_curves", "ecb_partial", "ctr_layouts", "ctr_layouts"]
+             "cfb_badseg", "mixed_curves", "ecb_partial", "ctr_layouts", "ctr_layouts", "strided", "strided", "strxor_tiny"]
 WS_CURVES = ["p192", "p224", "p256", "p384", "p521"]
 
 
@@ -319,14 +319,61 @@ class Machine(object):
             return PKCS1_v1_5.new(k).decrypt(ct, b"sentinel" * (salt % 5), expected_pt_len=(salt % 60) if salt & 2 else 0)
         if kind == "oaep":
             from Crypto.Cipher import PKCS1_OAEP
-            from Crypto.Hash import SHA1, SHA256, SHA384
+            from Crypto.Hash import SHA1, SHA256, SHA384, SHA512, SHA3_512, SHA224, MD5
             k = self.rsa
-            hm = [SHA1, SHA256, SHA384][salt % 3]
-            if salt & 4:
+            # digests up to and beyond what the 1024-bit modulus leaves room for (2*hLen + 2 > k: no message fits)
+            hm = [SHA1, SHA256, SHA384, SHA512, SHA3_512, SHA224, MD5, SHA512][salt % 8]
+            if salt & 8 and hm.digest_size * 2 + 2 <= 128:
                 ct = PKCS1_OAEP.new(k.publickey(), hashAlgo=hm, randfunc=entropy, label=msg[:salt]).encrypt(msg[:salt % 30])
             else:
                 ct = (int.from_bytes(data(seed, 128), "big") % int(k.n)).to_bytes(128, "big")
             return PKCS1_OAEP.new(k, hashAlgo=hm, label=msg[:salt]).decrypt(ct)
+        if kind == "strided":
+            # memoryviews that are not C-contiguous, as data and as output: refused or processed, never the memory behind them
+            from Crypto.Util.strxor import strxor, strxor_c
+            from Crypto.Cipher import AES, ChaCha20
+            from Crypto.Hash import SHA256, BLAKE2b, SHAKE128, Poly1305, CMAC
+            nn = 2 + n % 200
+            view = lambda b: memoryview(b)[::-1] if salt & 1 else memoryview(b)[::2]
+            src = bytearray(data(seed, nn * 2))
+            inp = view(src)
+            m = len(inp)
+            outb = bytearray(2 * m)
+            out = memoryview(outb)[::-1][:m] if salt & 2 else memoryview(outb)[::2]
+            res = []
+            targets = [lambda: SHA256.new().update(inp).digest(), lambda: BLAKE2b.new(digest_bytes=32).update(inp).digest(),
+                       lambda: SHAKE128.new().update(inp).read(16), lambda: CMAC.new(bytes(16), ciphermod=AES).update(inp).digest(),
+                       lambda: AES.new(bytes(16), AES.MODE_CTR, nonce=bytes(8)).encrypt(inp),
+                       lambda: AES.new(bytes(16), AES.MODE_CTR, nonce=bytes(8)).encrypt(bytes(m), output=out),
+                       lambda: AES.new(bytes(16), AES.MODE_CBC, iv=bytes(16)).encrypt(view(bytearray(32 * 2))),
+                       lambda: AES.new(bytes(16), AES.MODE_GCM, nonce=bytes(12)).update(inp).encrypt(inp, output=out),
+                       lambda: ChaCha20.new(key=bytes(32), nonce=bytes(12)).encrypt(inp, output=out),
+                       lambda: strxor(inp, bytes(m)), lambda: strxor(bytes(m), bytes(m), output=out), lambda: strxor_c(inp, 7),
+                       lambda: strxor_c(bytes(m), 7, output=out),
+                       lambda: Poly1305.new(key=bytes(32), cipher=AES, nonce=bytes(16)).update(inp).digest(),
+                       lambda: AES.new(view(bytearray(32)), AES.MODE_ECB).encrypt(bytes(16)),
+                       lambda: ChaCha20.new(key=view(bytearray(64)), nonce=bytes(12)).encrypt(b"x")]
+            for j in range(3):
+                t = targets[(salt // 4 + j * 5) % len(targets)]
+                try:
+                    r = t()
+                    res.append(bytes(r)[:8] if r is not None else bytes(outb[:8]))
+                except (TypeError, ValueError, BufferError) as e:
+                    res.append(type(e).__name__)
+            return res
+        if kind == "strxor_tiny":
+            # 0..9 bytes at every alignment of the three buffers
+            from Crypto.Util.strxor import strxor, strxor_c
+            res = []
+            for ln in range(0, 10):
+                a = bytearray(data(seed, 32))
+                b = bytearray(data(seed + 1, 32))
+                o = bytearray(32)
+                oa, ob_, oo = salt % 8, (salt >> 3) % 8, (salt + ln) % 8
+                strxor(memoryview(a)[oa:oa + ln], memoryview(b)[ob_:ob_ + ln], output=memoryview(o)[oo:oo + ln])
+                strxor_c(memoryview(a)[oa:oa + ln], salt & 0xFF, output=memoryview(o)[oo + 9:oo + 9 + ln])
+                res.append(bytes(o))
+            return res
         if kind == "strxor":
             from Crypto.Util.strxor import strxor, strxor_c
             a = F.Carried(msg, F.CARRIERS[salt % 5], salt)
